@@ -12,7 +12,7 @@ SPEC = dict(modules=["MemVerif.Props.C08", "MemVerif.Props.C08Coll"], gen_cfgs=(
 
 def run(ctx):
     common.run_sweep(ctx, "C08", "subj_compose", ["rwdi"] + (["dbg", "rel"] if ctx.thorough else []),
-                     ["1" if ctx.thorough else "0", ctx.seed], ["cmp"], subject="compose", ignore_known=("D24",))
+                     ["1" if ctx.thorough else "0", ctx.seed], ["cmp"], subject="compose", ignore_known=("D24", "D35"))
     n = 16 if ctx.thorough else 3
     st = subjects.run(ctx, "C08", subjects.POOL + subjects.COLL, ["rwdi", "dbg"], n, 150)
     st.update(subjects.run(ctx, "C08", subjects.STACK + subjects.ITER, ["rwdi", "dbg"], n, 150))
